@@ -16,6 +16,8 @@ pub fn snapshot_json(c: &Composer) -> Value {
         "gates": g,
         "witnesses": wit.iter().map(hex).collect::<Vec<_>>(),
         "pis": pis.iter().map(|(r, v)| json!([r, hex(v)])).collect::<Vec<_>>(),
+        // copy-constraint classes as registered in the permutation (witness -> wire positions)
+        "perm": c.verif_permutation_positions().iter().map(|(w, p)| json!([w, p.iter().map(|(c_, r)| json!([c_, r])).collect::<Vec<_>>()])).collect::<Vec<_>>(),
     })
 }
 
